@@ -491,6 +491,11 @@ def binary_worker(job):
         names = sorted(n for n in names if n not in (".", ".."))
         os.makedirs(os.path.join(base, "r"))
         allp = ["r"]
+        # names that are not valid UTF-8: "the path as -print would print it" is then the text with U+FFFD for the ill-formed bytes,
+        # and that whole text has to be in the language
+        for raw in rng.sample([b"\xffab", b"f\xffx", b"a\xe9", b"\xfe", b"b\x80b", b"A\xffa"], 3):
+            open(os.path.join(os.fsencode(base), b"r", raw), "w").close()
+            allp.append("r/" + raw.decode("utf-8", "replace"))
         for i, n in enumerate(names):
             if i % 4 == 0:
                 os.makedirs(os.path.join(base, "r", n))
@@ -519,6 +524,9 @@ def binary_worker(job):
             for p_ in allp:
                 want = py.fullmatch(p_) is not None
                 st.inc("evaluations")
+                if "\ufffd" in p_:
+                    st.inc("binary_evaluations_on_paths_that_are_not_utf8")
+                    st.inc("raw_path_members" if want else "raw_path_non_members")
                 st.inc("binary_members" if want else "binary_non_members")
                 g = p_ in got
                 if g != want:
